@@ -38,6 +38,13 @@ def sweeps(tier):
     out.append(sweep(tt, singles + [['sql_quote', 'upper'], ['sql_quote', 'spacify'], ['url_unquote', 'sql_quote'],
                                     ['thousands_commas', 'lower'], ['url_quote', 'capitalize']],
                      fmts=('', 'sql-quote', 'upper', 'url-unquote'), sizes=(-1, 6), forms=('name', 'expr')))
+    # byte strings go through the same modifiers (decoded with the template encoding): quoting laws hold for them too
+    bt = [text(s_, enc='utf-8') for s_ in ('1+1 = 2', 'a%2Bb+c %41', "it's +%2B+", 'x y')]
+    # (newline_to_br, spacify and thousands_commas do not accept byte strings at all -- TypeError / the repr of the bytes; no
+    # clause of C15 or C19 covers that combination, it is recorded in DESIGN.md and not claimed)
+    bsingles = [m_ for m_ in singles if not set(m_) & {'newline_to_br', 'spacify', 'thousands_commas'}]
+    out.append(sweep(bt, bsingles + [['url_quote_plus', 'url_unquote_plus'], ['url_quote', 'url_unquote'], ['url_unquote_plus', 'upper']],
+                     fmts=('', 'url-unquote-plus', 'url-quote-plus', 'url-unquote'), sizes=(-1,)))
     if tier == 'thorough':
         out.append(sweep(tv, [list(c) for c in itertools.combinations(vc.ALLMODS, 3)], fmts=('', 'strip'),
                          sizes=(-1, 5, 11)))
